@@ -85,6 +85,7 @@ class PyRepo:
         self.modules = {}
         self.funcs = {}
         self.digest = hashlib.sha256()
+        self.renames = []      # (file, function, {current name: baseline name}) undone before analysis
         pkgdir = os.path.join(self.root, PKG)
         if not os.path.isdir(pkgdir):
             raise AnalysisError("package directory %s missing" % pkgdir)
@@ -104,6 +105,9 @@ class PyRepo:
                 except SyntaxError as e:
                     raise AnalysisError("cannot parse %s: %s" % (rel, e))
                 self.digest.update(src.encode())
+                if os.environ.get("VCHECK_NO_RENAME") != "1":
+                    from . import rename
+                    rename.undo_renames(tree, rel, self.renames)
                 m = ModuleInfo(modname, path, src, tree)
                 self.modules[modname] = m
                 self._index(m)
@@ -302,6 +306,7 @@ class Check:
         self.notes = {}
         self.only = only       # (rule, key) filter for replay
         self.floor = 0
+        self.unrecognised = []
         self.explanation = ""
         self.trusted = []
 
@@ -313,6 +318,11 @@ class Check:
     def ob(self, rule, key, ok, where="", msg="", nontrivial=True, detail=None):
         """one rule instance.  key identifies the construct (stable under
         line-number changes); msg says what was checked / what is wrong."""
+        if ok is None:
+            # the construct the rule is about was not recognised in the current source (a restructured or renamed idiom):
+            # no verdict for this instance -- the run ends as analysis-broken unless a real violation is found elsewhere
+            self.unrecognised.append({"rule": rule, "key": key, "where": where, "msg": msg})
+            return False
         rec = {"rule": rule, "key": key, "ok": bool(ok), "where": where, "msg": msg,
                "nontrivial": bool(nontrivial)}
         if detail is not None:
@@ -335,7 +345,11 @@ class Check:
         if self.only is not None:
             fails = [o for o in fails if (o["rule"], o["key"]) == tuple(self.only)]
         n_obl = len(self.obl)
-        if self.only is None and n_obl < self.floor:
+        if self.unrecognised and not any(not o["ok"] for o in self.obl):
+            u = self.unrecognised
+            raise AnalysisError("%s: %d rule instance(s) could not recognise the construct they are about (no verdict): %s"
+                                % (self.pid, len(u), "; ".join("%s %s [%s] %s" % (x["rule"], x["key"], x["where"], x["msg"][:120]) for x in u[:4])))
+        if self.only is None and n_obl + len(self.unrecognised) < self.floor:
             raise AnalysisError("%s: only %d rule instances evaluated, hand-confirmed floor is %d"
                                 % (self.pid, n_obl, self.floor))
         viol = []
